@@ -42,6 +42,45 @@ def check_one(x, names, types, par, backend, ts):
     return fails, vec
 
 
+def fs_history(ctx):
+    """File-system histories for the types whose membership reads the disk (Path > File > Image): membership is asked while
+    the files exist, a file is removed / replaced / created, and membership is asked again.  Whatever the history, a
+    sequence contained in a type is contained in its identity parent at that moment."""
+    import os
+    import pathlib
+    import shutil
+    import tempfile
+    import pandas as pd
+    txt, png = streams.fixtures()
+    fails = []
+    d = tempfile.mkdtemp(prefix="c16fs")
+    try:
+        a, b, c = os.path.join(d, "a.png"), os.path.join(d, "b.png"), os.path.join(d, "c.txt")
+        steps = [("create a.png b.png c.txt", lambda: (shutil.copy(png, a), shutil.copy(png, b), shutil.copy(txt, c))),
+                 ("remove b.png", lambda: os.remove(b)),
+                 ("replace a.png by text", lambda: shutil.copy(txt, a)),
+                 ("re-create b.png", lambda: shutil.copy(png, b)),
+                 ("remove everything", lambda: [os.remove(x) for x in (a, b, c) if os.path.exists(x)])]
+        seqs = {"[a, b]": [a, b], "[a]": [a], "[b]": [b], "[c]": [c], "[a, c]": [a, c]}
+        done = []
+        for desc, act in steps:
+            act()
+            done.append(desc)
+            for nm, ps in seqs.items():
+                for mk, label in ((lambda ps: pd.Series([pathlib.Path(x) for x in ps]), "pandas"), (lambda ps: [pathlib.Path(x) for x in ps], "list")):
+                    x = mk(ps)
+                    vec = absmodel.real_vector(x, ctx["types"])
+                    inn = {n for n, v in zip(ctx["names"], vec) if v == 1}
+                    for n in sorted(inn):
+                        p_ = ctx["par"].get(n)
+                        if p_ is not None and p_ not in inn:
+                            fails.append({"what": f"after the file-system history {done}, the paths {nm} are contained in {n} but not in its identity parent {p_}",
+                                          "class": f"closure-after-fs-history:{n}->{p_}", "child": n, "parent": p_, "backend": label, "history": "fs"})
+    finally:
+        shutil.rmtree(d, ignore_errors=True)
+    return fails
+
+
 def oracle_fn(ctx, item, s):
     fails, vec = check_one(s, ctx["names"], ctx["types"], ctx["par"], "pandas", ctx["complete"])
     ctx["vectors"].append((item, s, vec))
@@ -70,6 +109,13 @@ def oracle_fn(ctx, item, s):
 
 def replay(path):
     r = json.load(open(path))
+    if r.get("history") == "fs":
+        names, types = type_table()
+        with warnings.catch_warnings():
+            warnings.simplefilter("ignore")
+            f = fs_history({"names": names, "types": types, "par": streams.identity_parent()})
+        print("replay:", [x["what"] for x in f][:3] if f else "property holds on this history")
+        return 1 if f else 0
     if "recipe" not in r:
         print("replay names a broken obligation, no input to re-run:", [o["name"] for o in r.get("broken_obligations", [])])
         return 1
@@ -113,6 +159,10 @@ def run(args):
     ctx = {"names": names, "types": types, "par": streams.identity_parent(), "complete": streams.shipped_typesets()["CompleteSet"],
            "np_names": npn, "np_types": npt, "vectors": []}
     new, seen_known, kn = oracle.run_oracle(run, PROP, items, oracle_fn, ctx)
+    with warnings.catch_warnings():
+        warnings.simplefilter("ignore")
+        new += [f for f in fs_history(ctx) if oracle.classify(PROP, f, kn) is None][:3]
+    run.cov["fs_histories"] = "create/remove/replace/re-create image and text files between membership tests of Path/File/Image (pandas + list)"
     # ---- correspondence: generated predicates (extracted) vs `series in T` for all 24 types
     if info["build_ok"] and info["gen"]["pandas"]["ok"]:
         ok, out = C.build_driver("pandas")
